@@ -170,6 +170,10 @@ func (rn *runner) transports(w *World, inputs [][]byte) {
 				Replay: mkReplay(w, in, "ws")})
 		case len(msgs) == 1:
 			o.Out = msgs[0]
+			if len(msgs[0]) == 0 {
+				res.Violate(lib.Violation{Sig: "websocket-empty-message", What: fmt.Sprintf("[ws] an empty message is sent for input %s", describe(in)),
+					Replay: mkReplay(w, in, "ws")})
+			}
 		}
 		calls, recErrs := w.taken()
 		// drop the sentinel's own invocation
